@@ -11,6 +11,7 @@ mod kernels;
 mod sched;
 mod lfu;
 mod ack;
+mod stress;
 
 use std::env;
 
@@ -25,6 +26,7 @@ fn main() {
         "run" => sched::run_file(&args[2]),
         "lfu" => lfu::run_file(&args[2]),
         "ack" => ack::run_file(&args[2]),
+        "stress" => stress::run(&args[2..]),
         other => {
             eprintln!("unknown sub-command {}", other);
             std::process::exit(2);
